@@ -3,6 +3,7 @@ package main
 import (
 	"encoding/json"
 	"fmt"
+	corev1 "k8s.io/api/core/v1"
 	"math"
 	"sort"
 
@@ -262,7 +263,7 @@ func runC01(ctx *Ctx) *Result {
 					res.Evaluations++
 					res.Stats["controller_cases"]++
 					want := refspec.Desired(r, m)
-					got, tr, incon := c01Controller(w, r, slots, pol)
+					got, tr, incon := c01Controller(w, r, slots, pol, false)
 					if incon != "" {
 						res.Inconclusive = append(res.Inconclusive, incon)
 						continue
@@ -270,6 +271,19 @@ func runC01(ctx *Ctx) *Result {
 					if !eqInts(got, want) {
 						add(blk, "controller-creates-differ-from-spec", fmt.Sprintf("replicas=%d slots=%v policy=%s: controller created pods at %v, spec is %v", r, slots, pol, got, want),
 							map[string]interface{}{"trace": tr})
+					}
+					// the same with bystanders around: unowned pods carrying the set's labels whose names merely
+					// resemble the set's pod names occupy no ordinal
+					if r > 0 && (idx+r)%3 == 0 {
+						res.Evaluations++
+						res.Stats["controller_cases_with_bystander_pods"]++
+						got, tr, incon = c01Controller(w, r, slots, pol, true)
+						if incon != "" {
+							res.Inconclusive = append(res.Inconclusive, incon)
+						} else if !eqInts(got, want) {
+							add(blk, "controller-creates-differ-from-spec", fmt.Sprintf("replicas=%d slots=%v policy=%s, look-alike pods web-<n>-debug / xweb-<n> / web--<n> present: controller created pods at %v, spec is %v", r, slots, pol, got, want),
+								map[string]interface{}{"trace": tr})
+						}
 					}
 					if len(slots) > 0 && r > 0 {
 						res.sig(fmt.Sprintf("c/%d/%v/%s", r, slots, pol))
@@ -362,11 +376,18 @@ func c01History(w *world.World, r1 int, s1 []int32, r2 int, s2 []int32, pol asv1
 }
 
 // c01Controller runs the real controller on an empty cluster and returns the ordinals it created pods at.
-func c01Controller(w *world.World, r int, slots []int32, pol asv1.PodManagementPolicyType) ([]int, []string, string) {
+func c01Controller(w *world.World, r int, slots []int32, pol asv1.PodManagementPolicyType, bystanders bool) ([]int, []string, string) {
 	w.Reset()
 	p := int32(0)
 	set := world.NewSet(world.SetOpts{Name: "web", Replicas: int32(r), Slots: slots, Policy: pol, Partition: &p, HistLimit: 10})
 	w.Srv.Seed(simapi.Sets, set)
+	if bystanders {
+		for k := 0; k <= r+len(slots); k++ {
+			name := []string{fmt.Sprintf("web-%d-debug", k), fmt.Sprintf("xweb-%d", k), fmt.Sprintf("web--%d", k)}[k%3]
+			w.Srv.Seed(simapi.Pods, world.NewPod(world.PodOpts{Name: name, Labels: set.Spec.Selector.MatchLabels, SetName: "web", Ordinal: k,
+				Phase: corev1.PodRunning, Scheduled: true, Ready: true, PodNameLbl: name}))
+		}
+	}
 	w.DeliverAll()
 	created := map[int]bool{}
 	var trace []string
@@ -402,10 +423,10 @@ func c01Controller(w *world.World, r int, slots []int32, pol asv1.PodManagementP
 
 func init() {
 	register(&Check{Prop: "C01", Level: "exploration", Exhaustive: true,
-		Rule: "exhaustive: every replicas r in 0..8 (9 thorough) x every subset of {-3..-1} U [0,12) (14 thorough) as slot set and as annotation text, plus absent/malformed/duplicate/extreme annotation texts, each against the independent spec 'first r naturals not in S' for all five helpers; controller half: every r<=5 x subset of [-1,7) x {Parallel, OrderedReady} on an empty cluster, create calls compared with the spec, plus 588 edit histories (r1,S1)->(r2,S2) incl. cleared annotations run to convergence and compared with the spec of the current values; non-trivial = r>0 and at least one slot; distinct = distinct (r, S[, policy])",
+		Rule: "exhaustive: every replicas r in 0..8 (9 thorough) x every subset of {-3..-1} U [0,12) (14 thorough) as slot set and as annotation text, plus absent/malformed/duplicate/extreme annotation texts, each against the independent spec 'first r naturals not in S' for all five helpers; controller half: every r<=5 x subset of [-1,7) x {Parallel, OrderedReady} on an empty cluster (a third of them again with unowned look-alike pods web-<n>-debug / xweb-<n> / web--<n> carrying the set's labels), create calls compared with the spec, plus 588 edit histories (r1,S1)->(r2,S2) incl. cleared annotations run to convergence and compared with the spec of the current values; non-trivial = r>0 and at least one slot; distinct = distinct (r, S[, policy])",
 		Assume: []string{"replicas is kept small: the code allocates a slice of the effective range, so r near MaxInt32 is an out-of-memory question, not an ordinal question",
 			"for texts whose meaning is a Go JSON decoder quirk ([null], [1.0]) only agreement downstream of GetDeleteSlots is checked"},
 		Cases:  func(t string) int { return c01Blocks + 32 },
 		Run:    runC01,
-		Floors: []string{"helper_cases_with_negative_slot", "annotation_text_cases", "controller_cases", "controller_history_cases"}})
+		Floors: []string{"helper_cases_with_negative_slot", "annotation_text_cases", "controller_cases", "controller_cases_with_bystander_pods", "controller_history_cases"}})
 }
